@@ -198,6 +198,32 @@ CLAIMED = {
         "Trusted: TLC, harness/faultio.c reaching libstdc++ streams (a fault-free run must log at least one write per "
         "output, else exit 2).",
         "DESIGN.md §C19"),
+    "C04": (
+        "TLA+ specs CppLib/Export (libraries built declaration by declaration: files with source classes, access "
+        "sections, member kinds, publish regions, min_vis, .N commands; the export RULE as predicates + closure next "
+        "to the MECHANISM: build() scan plus on-demand get_type worklist), TLC safety invariants in every worklist "
+        "state and Complete (mechanism = rule) at the fix-point; every complete library rendered to a header tree and "
+        "replayed through interrogate, database read back with the query interface, generated code scanned for "
+        "marker names of non-exported entities",
+        "For every enumerated library and option set the set of exported types, callables and destructors must equal "
+        "the rule's, and no wrapper may mention a non-exported entity; the modelled mechanism is shown to refine the "
+        "rule by TLC, the code to follow it by exhaustive replay (28 810 libraries in the quick tier).",
+        "Trusted: TLC, g++ -fsyntax-only (the generated headers are valid C++), the renderer vf/cpplib.py. Where the "
+        "property sentence is coarser than the documented behaviour only what both agree on is demanded (DESIGN.md 14).",
+        "DESIGN.md §C04"),
+    "C05": (
+        "TLA+ specs CppLib/ExportDesc (the generator's ground-truth description of every entity: names, kinds, bases "
+        "and cast availability, nesting, roles, per-variant parameters/optional/this/return/caller-owns) and "
+        "CommentAttach (comment-block attachment as a line machine: reference vs. the code's lookup, Refines / "
+        "NoSharing / Adjacent); TLC enumeration; entity-by-entity comparison of the database dump with the model; "
+        "comment sweeps over all line sequences of length <= 5",
+        "Every fact the model holds about every exported entity of every enumerated library is compared with what the "
+        "query interface reports (34 327 facts in the quick tier); every comment/declaration line sequence within the "
+        "bound is replayed and each declaration's recorded comment compared with the reference attachment.",
+        "Trusted: TLC, the renderer vf/cpplib.py (it writes the header from the same record the facts are read from). "
+        "MAKE_PROPERTY / MAKE_SEQ descriptions are exercised under C11, not here; trailing comments are claimed only "
+        "in enumerator lists.",
+        "DESIGN.md §C05"),
 }
 
 NOT_APPLICABLE = {
